@@ -358,3 +358,19 @@ var GenInt = GenF[int]
 //
 //go:noinline
 func CallGen(a int) int { return GenF[int](a) }
+
+// E1 has an interface-typed (error) result.
+//
+//go:noinline
+func E1(a int) error {
+	if a > 1<<50 {
+		return errE1
+	}
+	return nil
+}
+
+var errE1 error = e1err{}
+
+type e1err struct{}
+
+func (e1err) Error() string { return "e1" }
